@@ -633,6 +633,14 @@ func (ft *FakeTarget) defaultHandle(c net.Conn, br *bufio.Reader, req *http.Requ
 		ft.end(rec, "upgrade-closed")
 		return false
 	}
+	if lat == 0 && len(body) > 0 {
+		// A real target cannot answer in zero time. Answering a request that has a body at the
+		// very instant its last byte arrived races net/http's own bookkeeping in the proxy (the
+		// server closes the request body when the response header is written while the
+		// transport's writer is still finishing with it); any positive virtual delay lets every
+		// goroutine settle first. See DESIGN.md section 11.
+		lat = int64(OffTarget)
+	}
 	if !ft.waitOrClosed(c, br, time.Duration(lat)) {
 		ft.end(rec, "aborted")
 		return false
